@@ -369,6 +369,20 @@ theorem qr_image_path_eq_matrix_path {F α : Type} (o : FOps F) (n : Nat) (m : N
       simp only [qrRead, hnf]
     · left; exact ok_of bm hbm hex
 
+/-- … and the condition is exact: below 40 pixels on an axis and with NO white pixel among the sampled ones the image is
+    refused (the binariser's NotFound, handed through) — whatever the module matrix -/
+theorem qr_image_path_refused {F α : Type} (o : FOps F) (mw mh : Nat) (m : Nat → Nat → Bool) (q reqW reqH : Int)
+    (hq : 0 ≤ q) (hw : 1 ≤ mw) (hh : 1 ≤ mh) (decode : Bits → Res α) :
+    ∀ img, renderQR mw mh m q reqW reqH = .ok img → (img.w < 40 ∨ img.h < 40) → ¬ WhiteSample img →
+      qrImagePath o mw mh m q reqW reqH decode = .error (.other .notFound) := by
+  intro img himg hsmall hno
+  obtain ⟨img', himg', ew, eh, _⟩ := renderQR_shows mw mh m q reqW reqH hq hw hh
+  rw [himg] at himg'; cases himg'
+  have hnf := blackMatrix_no_white img (by rw [ew]; unfold outSize; omega) (by rw [eh]; unfold outSize; omega) hsmall hno
+  unfold qrImagePath
+  rw [himg]
+  simp only [qrRead, hnf]
+
 /-- whatever a matrix-level theorem says about `Decoder.Decode` on the symbol that carries the final codeword
     sequence `cw` (function patterns, format / version information and placement of the reference; the codewords may
     be damaged) holds of the image path of that symbol -/
